@@ -1,0 +1,42 @@
+//go:build verif
+
+// Contracts for the verification machinery in /verif (comment-only; no declarations).
+//
+// C02: the yamux stream adapter passes the caller's buffer to the yamux stream exactly once and returns its byte
+// count unchanged; only the error value is translated (nil stays nil, non-nil stays non-nil), so a half-closed or
+// reset stream is still reported as an error and never as data.
+
+package yamux
+
+//@ func parseError
+//@ prop C02
+//@ ensures (result == nil) <==> (err == nil)
+//@ modifies nothing
+
+//@ func (s *stream) Read
+//@ prop C02
+//@ ensures ncalls(Read, 0) == 1 && arg(Read, 0, 0) == s && arg(Read, 0, 1) == b
+//@ ensures n == ret(Read, 0, 0) && ((err == nil) <==> (ret(Read, 0, 1) == nil))
+//@ modifies elems(b)
+
+//@ func (s *stream) Write
+//@ prop C02
+//@ ensures ncalls(Write, 0) == 1 && arg(Write, 0, 0) == s && arg(Write, 0, 1) == b
+//@ ensures n == ret(Write, 0, 0) && ((err == nil) <==> (ret(Write, 0, 1) == nil))
+//@ modifies nothing
+
+// one adapter per yamux stream: the muxed stream handed out is exactly the stream yamux opened / accepted on this
+// session (no sharing, no substitution - interleaved streams stay separate), and an open error is never masked
+//@ func (c *conn) OpenStream
+//@ prop C02
+//@ ensures ncalls(OpenStream, 0) == 1 && arg(OpenStream, 0, 0) == c && arg(OpenStream, 0, 1) == ctx
+//@ ensures result1 == nil ==> ret(OpenStream, 0, 1) == nil && result0 == ret(OpenStream, 0, 0)
+//@ ensures ret(OpenStream, 0, 1) != nil ==> result1 != nil && result0 == nil
+//@ modifies nothing
+
+//@ func (c *conn) AcceptStream
+//@ prop C02
+//@ ensures ncalls(AcceptStream, 0) == 1 && arg(AcceptStream, 0, 0) == c
+//@ ensures result1 == nil ==> ret(AcceptStream, 0, 1) == nil && result0 == ret(AcceptStream, 0, 0)
+//@ ensures ret(AcceptStream, 0, 1) != nil ==> result1 != nil
+//@ modifies nothing
